@@ -461,6 +461,17 @@ def run(ctx):
         RA.check_accessors(ctx, _Null(), v, rules=())  # evaluate every accessor once (events)
         seen = set()
         for e in om.events():
+            if e.kind == "unorderable_compare" and py2:
+                key = (e.where(), "cmp")
+                if key not in seen:
+                    seen.add(key)
+                    led.violation(
+                        "C20.compare",
+                        "%s::%s" % (e.func.qualname if e.func else "?", short(e.node)),
+                        e.where(),
+                        "%s: Python 3 raises TypeError here, Python 2.7 orders such operands by an arbitrary rule and goes on - whatever "
+                        "follows (a handler, a default) the two families of interpreters take different paths" % e.data.get("what"),
+                    )
             if e.kind == "plain_dict_iter" and py2:
                 key = (e.where(), e.data.get("what"))
                 if key in seen:
@@ -516,6 +527,31 @@ def run(ctx):
             )
         if not hits:
             led.ok("C20.order", "cvss_calculator.main::namespace", "cvss/cvss_calculator.py", "main() never iterates the argparse namespace or another plain dict")
+    # ---- keyword arguments reach the callee as a plain dict before Python 3.6 (PEP 468): an
+    # ordered mapping built from two or more keywords (or **mapping) has an arbitrary key order there
+    pre36 = any(v < (3, 6) for v in supported)
+    n_kw = 0
+    for name, m in sorted(ctx.repo.modules.items()):
+        for n in ast.walk(m.tree):
+            if not isinstance(n, ast.Call):
+                continue
+            fn = n.func
+            callee = fn.id if isinstance(fn, ast.Name) else fn.attr if isinstance(fn, ast.Attribute) else None
+            if callee != "OrderedDict":
+                continue
+            n_kw += 1
+            named = [k for k in n.keywords if k.arg is not None]
+            star = [k for k in n.keywords if k.arg is None]
+            bad_kw = len(named) >= 2 or (star and not isinstance(star[0].value, ast.Name) and False) or (star and len(named) >= 1)
+            led.check(
+                not (bad_kw and pre36),
+                "C20.order.kwargs",
+                "%s::%s" % (name, short(n)),
+                m.where(n),
+                "OrderedDict(%s) takes its entries from keyword arguments: before Python 3.6 they arrive as a plain dict, so the key order "
+                "differs from 3.6+" % ", ".join("%s=..." % k.arg for k in named[:3]),
+            )
+    led.count("ordereddict_constructions", n_kw)
     # ---- compile-only witness per installed interpreter
     paths = [m.path for _, m in sorted(ctx.repo.modules.items())]
     interps = PC.interpreters()
